@@ -518,9 +518,9 @@ def corrupt_parse(lines, pid):
     return None
 
 
-FAMILIES["parse"] = dict(vdrive="parse", trace_module="TraceD2Parse", trace_cfg="TraceD2Parse.cfg", corrupt=corrupt_parse, engine="TraceD2Parse", args={"n": "600"}, chunk=1200, heap="4g")
-_ps_rule = ("the input space is FIXED (input #i from seed i, 6000 inputs; quick takes the 600 VERIF_SEED selects): generated programs (mode text), the same damaged in 1-3 places, raw byte strings of 1-7 bytes over 31 structural/invalid bytes "
-            "(incl. UTF-16 LE with BOM, odd and even payloads, and multi-byte/astral prefixes), constructs nested or left open 1-2000 deep, and key/value fragments; each through Parse (UTF-8 and UTF-16 position modes), ParseKey, ParseMapKey, ParseValue. Non-trivial: ")
+FAMILIES["parse"] = dict(vdrive="parse", trace_module="TraceD2Parse", trace_cfg="TraceD2Parse.cfg", corrupt=corrupt_parse, engine="TraceD2Parse", args={"n": "900"}, chunk=1200, heap="4g")
+_ps_rule = ("the input space is FIXED (input #i from seed i, 9900 inputs; quick takes the 900 VERIF_SEED selects): generated programs (mode text), the same damaged in 1-3 places, raw byte strings of 1-7 bytes over 31 structural/invalid bytes "
+            "(incl. UTF-16 LE with BOM, odd and even payloads, and multi-byte/astral prefixes), constructs nested or left open 1-2000 deep, key/value fragments, and systematic token rows (28 tokens incl. *, ${x}, ...${x}, quotes, escapes, brackets, arrows: every pair and every triple of tokens next to each other in a key, a value and a connection label, 2436 rows of 28 lines); each through Parse (UTF-8 and UTF-16 position modes), ParseKey, ParseMapKey, ParseValue. Non-trivial: ")
 PROPS["C01"] = dict(family="parse", level="exploration", design_ref="5", technique="totality monitor in TLA+ over call/return events of the four parser entry points: returned, no panic, no timeout (20 s), a tree (Parse: always) or errors, errors positioned",
                     rule=_ps_rule + "every input.", exhaustive=dict(quick=False, thorough=True), assumptions=["ParseKey/ParseMapKey/ParseValue return nil together with an error; for them the contract is 'a tree or errors'"],
                     text="Parsing is a call/return stage whose guard is the totality contract.", note="Trusted: TLC, Json module, the input generators in the harness.")
@@ -699,10 +699,33 @@ PROPS["C42"] = dict(family="lsp", level="exploration", design_ref="4.4",
                     text="Innermost is the specification of the board lookup; references are validated by slicing the source.", note="Trusted: TLC, Json module, the block offsets recorded by the program writer.")
 
 
+# ---------------------------------------------------------------------------------- fonts (C47)
+def corrupt_fonts(lines, pid):
+    for e in lines:
+        if e.get("ev") == "font" and e.get("decoded") == 1 and e["inSubset"] and set(e["inSubset"]) & set(e["inFull"]):
+            c = sorted(set(e["inSubset"]) & set(e["inFull"]))[0]
+            e["inSubset"].remove(c)
+            return "one drawn character removed from the embedded subset"
+    return None
+
+
+FAMILIES["fonts"] = dict(vdrive="fonts", trace_module="TraceD2Fonts", trace_cfg="TraceD2Fonts.cfg", corrupt=corrupt_fonts, engine="TraceD2Fonts", args={"n": "150"}, chunk=3000, heap="3g")
+PROPS["C47"] = dict(family="fonts", level="exploration", design_ref="4.11",
+                    technique="every embedded WOFF font of the rendered SVG is decoded (WOFF 1: zlib per table) and its character map (cmap formats 4, 6, 12) read; the characters the SVG draws in that font are collected from the SVG (class of <text>, markdown elements); TLC checks drawn /\\ full \\subseteq subset and that a font in which text is drawn is embedded",
+                    rule=("the space is FIXED (diagram #i from seed i, 1,200 diagrams; quick takes the 150 VERIF_SEED selects): 1-4 shapes with labels from 36 word groups (Latin-1, Latin Extended incl. digraphs and dotless/dotted i, Greek, Cyrillic, ligatures, currency, arrows, "
+                          "mathematical signs, typographic quotes and dashes, CJK, emoji), bold / italic / mono styles, tooltips, text-transform uppercase / lowercase / capitalize, a connection with label and arrowhead labels, and one of class, sql_table, code, markdown; "
+                          "7 themes; dagre. Non-trivial: every diagram."),
+                    exhaustive=dict(quick=False, thorough=False),
+                    assumptions=["which font a character is drawn in is read from the SVG: the text-* class of <text> elements; inside markdown: strong/b/th = bold, em/i = italic, h1-h6 = semibold, code/pre = mono, everything else regular",
+                                 "sketch mode fonts and custom fonts are not exercised", "the full font's character map is read with the same cmap reader from d2fonts.FontFaces"],
+                    text="A set-inclusion statement per embedded font; the quantifier is discharged by generated text.", note="Trusted: TLC, Json module, the WOFF/cmap reader and the SVG walk in harness/cmd/vdrive/fonts.go.")
+
+
 # ------------------------------------------------------------------------------- manifest data
 HOOK_COMMITS = ["9d004ebd4", "879b5d739"]
 
 ENGINES = {
+    "TraceD2Fonts": dict(path="specs/TraceD2Fonts.tla", kind="TLA+ set-inclusion statement per embedded font, evaluated by TLC on the decoded fonts and the drawn characters of real renders"),
     "TraceD2Lsp": dict(path="specs/TraceD2Lsp.tla", kind="TLA+ definition of the innermost board at a position and reference-range validity, evaluated by TLC on the results of the real d2lsp functions"),
     "TraceD2Links": dict(path="specs/TraceD2Links.tla, specs/BoardPaths.tla", kind="TLA+ resolution of board links and derivation of output files and relative paths; TLC compares with the real compiler's stored links and the real CLI's hrefs"),
     "TraceD2Imports": dict(path="specs/D2IR.tla, specs/TraceD2Imports.tla, specs/ir_alphabet.json", kind="TLA+ expansion of imports with the import stack (cycle rule) over the D2IR reference interpreter; TLC compares the expansion with the real compiler's result for generated file sets"),
